@@ -14,7 +14,7 @@ from .ctx import CTX, OutOfSubset, PathEnd
 from .sym import (SInt, SBool, SStr, SRef, SBV, SReal, PyRaise, mk_int, mk_bool, mk_str, _zint, _zbool, zstr,
                   is_sym, ite)
 from .values import (Opaque, AbstractSeq, OneShotIter, EnumMember, FuncVal, BoundMethod, PropertyVal, HostFn, HostModule, ClassVal, VObj,
-                     RangeVal, IterVal, VDict, VSet, VList, GhostVal, PointwiseSeq, kind_of_value, _elem_wrap, _elem_unwrap)
+                     RangeVal, IterVal, VDict, VSet, VList, GhostVal, PointwiseSeq, kind_of_value, _elem_wrap, _elem_unwrap, note_write)
 
 ITERABLE = HostFn(lambda: None, "collections.abc.Iterable")
 SEQUENCE = HostFn(lambda: None, "collections.abc.Sequence")
@@ -878,6 +878,7 @@ def _list_method(interp, lst, name):
             lst.extend(items)
 
     def reverse(i, a, k):
+        note_write(lst)
         lst.items = list(reversed(lst.iter_items()))
 
     def copy(i, a, k):
@@ -890,6 +891,7 @@ def _list_method(interp, lst, name):
         idx = a[0] if a else -1
         if is_sym(idx):
             raise OutOfSubset("pop with symbolic index")
+        note_write(lst)
         return lst.items.pop(idx)
 
     def index(i, a, k):
@@ -902,9 +904,11 @@ def _list_method(interp, lst, name):
         if is_sym(a[0]):
             raise OutOfSubset("insert with symbolic index")
         lst.iter_items()
+        note_write(lst)
         lst.items.insert(a[0], a[1])
 
     def sort(i, a, k):
+        note_write(lst)
         lst.items = _sorted(i, [lst], k).items
 
     def count(i, a, k):
@@ -946,6 +950,7 @@ def _dict_method(interp, d, name):
 
 def _set_method(interp, s, name):
     def add(i, a, k):
+        note_write(s)
         if s.abstract:
             return
         for y in s.items:
